@@ -35,6 +35,9 @@ import (
 const rtPath = "verifh/verifrt"
 const rtName = "verifrt_"
 
+// extraImports are further harness packages substitution targets may name.
+var extraImports = map[string]string{"nristub_": "verifh/verifrt/nristub"}
+
 type substRule struct {
 	Pkg  string // package being rewritten (import path suffix under the module), "" = any
 	From string // "<import path>.<Name>", or "(<recv type>).<Method>" for a method call
@@ -145,7 +148,7 @@ func run(cfg *config) error {
 			if !strings.HasPrefix(fname, cfg.Repo+"/") {
 				continue
 			}
-			rw := &rewriter{cfg: cfg, pkg: p, file: f, fset: fset, st: st, sync: syncSet[p.PkgPath], fname: fname}
+			rw := &rewriter{cfg: cfg, pkg: p, file: f, fset: fset, st: st, sync: syncSet[p.PkgPath], fname: fname, extra: map[string]bool{}}
 			changed, err := rw.rewrite()
 			if err != nil {
 				return fmt.Errorf("%s: %w", fname, err)
@@ -235,6 +238,7 @@ type rewriter struct {
 	sync    bool
 	fname   string
 	needRT  bool
+	extra   map[string]bool
 	changed bool
 	err     error
 }
@@ -331,6 +335,11 @@ func (rw *rewriter) rewrite() (bool, error) {
 			if strings.Contains(to, rtName) {
 				rw.needRT = true
 			}
+			for alias := range extraImports {
+				if strings.Contains(to, alias+".") {
+					rw.extra[alias] = true
+				}
+			}
 			c.Replace(expr)
 			replacedPkgs[pn]++
 			rw.st.Substs++
@@ -373,6 +382,9 @@ func (rw *rewriter) rewrite() (bool, error) {
 	}
 	if rw.needRT {
 		astutil.AddNamedImport(rw.fset, rw.file, rtName, rtPath)
+	}
+	for alias := range rw.extra {
+		astutil.AddNamedImport(rw.fset, rw.file, alias, extraImports[alias])
 	}
 	return true, nil
 }
